@@ -185,6 +185,31 @@ Fixpoint insert_nat (x : nat) (l : list nat) : list nat :=
   end.
 Definition sort_nat (l : list nat) : list nat := fold_right insert_nat [] l.
 
+(* bottom-up merge sort on Z (row ids), for multiset comparison *)
+Fixpoint merge_Z (a : list Z) : list Z -> list Z :=
+  fix inner (b : list Z) : list Z :=
+    match a, b with
+    | [], _ => b
+    | _, [] => a
+    | x :: a', y :: b' => if Z.leb x y then x :: merge_Z a' b else y :: inner b'
+    end.
+
+Fixpoint merge_pairs (l : list (list Z)) : list (list Z) :=
+  match l with
+  | a :: b :: t => merge_Z a b :: merge_pairs t
+  | _ => l
+  end.
+
+Fixpoint merge_all (fuel : nat) (l : list (list Z)) : list Z :=
+  match fuel, l with
+  | _, [] => []
+  | _, [a] => a
+  | O, a :: _ => a
+  | S f, _ => merge_all f (merge_pairs l)
+  end.
+
+Definition sort_Z (l : list Z) : list Z := merge_all (length l) (map (fun x => [x]) l).
+
 Fixpoint nodup_sorted (l : list nat) : bool :=
   match l with
   | x :: ((y :: _) as t) => negb (x =? y)%nat && nodup_sorted t
@@ -336,8 +361,7 @@ Definition q_violates (fx : bool) (q : qstate) (o : qobs) : list bool :=
     negb (m_int_at_done (c_m c)) && negb (all_or_none e st);
     clean_completion q && negb (full_rows e st);
     (* C02 delivery: on clean completion exactly the matched rows of the scanned blocks *)
-    clean_completion q && negb ((length (qo_returned o) =? length (survived_rows q))%nat &&
-                                Z.eqb (sumZ (fun r => r) (qo_returned o)) (sumZ (fun r => r) (survived_rows q)));
+    clean_completion q && negb (list_eqb Z.eqb (sort_Z (qo_returned o)) (sort_Z (survived_rows q)));
     complete c && negb (Z.eqb (so_matched (qo_stats o)) (Z.of_nat (length (qo_returned o))))
   ].
 
